@@ -64,6 +64,17 @@ def ensure_built(clean=False):
         rc, out, err, _ = _run(['/venv/bin/python', os.path.join(VERIF, 'harness', 'genparams.py')], timeout=120)
         if rc != 0:
             return False, 'genparams failed:\n' + out + err
+        # translate hpfeeds/protocol.py into coq/ProtoGen.v; when the source has left the translatable fragment the
+        # generated file is removed, so that everything that depends on it (C05-C07 source-level theorems) stops building
+        rc, out, err, _ = _run(['/venv/bin/python', os.path.join(VERIF, 'harness', 'pytrans.py')], timeout=120)
+        trans_note = ''
+        if rc != 0:
+            trans_note = 'pytrans failed: ' + (out + err)[-600:]
+            for fn in ('ProtoGen.v', 'ProtoGen.vo', 'ProtoGenEq.vo', 'ProtoGenProps.vo'):
+                try:
+                    os.unlink(os.path.join(COQ, fn))
+                except OSError:
+                    pass
         mk = os.path.join(COQ, 'Makefile')
         stale = (not os.path.exists(mk)) or os.path.getmtime(mk) < os.path.getmtime(os.path.join(COQ, '_CoqProject'))
         if clean or stale:
@@ -74,7 +85,7 @@ def ensure_built(clean=False):
             _run(['make', 'clean'], cwd=COQ, timeout=300)
         rc, out, err, dt = _run(['timeout', '3000', 'make', '-k', '-j%d' % NPROC], cwd=COQ, timeout=3100)
         if rc != 0:
-            return False, 'make failed (%.0fs):\n%s\n%s' % (dt, out[-4000:], err[-6000:])
+            return False, '%s\nmake failed (%.0fs):\n%s\n%s' % (trans_note, dt, out[-4000:], err[-6000:])
         return True, 'make ok (%.1fs)' % dt
     finally:
         fcntl.flock(lock, fcntl.LOCK_UN)
